@@ -39,18 +39,6 @@ func init() {
 
 var c12Idents = []string{"anon", "a/" + XS("bearer") + "/" + XS("alice"), "a/" + XS("jwt") + "/" + XS("bob")}
 
-func tkKeyOfLen(r *Rng, n int) string { return X(r.Bytes(n)) }
-
-func tkInstLine(name, key string, ttlMs, cache int, sticky bool, serverID string, rehydrate, hook bool) string {
-	b := func(v bool) int {
-		if v {
-			return 1
-		}
-		return 0
-	}
-	return fmt.Sprintf("inst %s key=%s ttl=%d cache=%d sticky=%d sid=%s rehydrate=%d hook=%d", name, key, ttlMs, cache, b(sticky), XS(serverID), b(rehydrate), b(hook))
-}
-
 // c12Edits: one battery of alterations for a token whose text has n bytes (raw m bytes).
 func c12Edits(r *Rng, n, m int, exhaustive bool) []string {
 	var e []string
@@ -212,36 +200,4 @@ func c12Gen(g *Gen) {
 		lines = append(lines, fmt.Sprintf("cont i1 %s %s cur=$%s call=$k0 cancel=0 sess=- out=cz", id, m, curSlot))
 		g.Case(lines...)
 	}
-}
-
-func indexOf(xs []string, x string) int {
-	for i, y := range xs {
-		if y == x {
-			return i
-		}
-	}
-	return 0
-}
-
-func b2i(b bool) int {
-	if b {
-		return 1
-	}
-	return 0
-}
-
-func sample(r *Rng, xs []string, k int) []string {
-	if len(xs) <= k {
-		return xs
-	}
-	out := make([]string, 0, k)
-	idx := map[int]bool{}
-	for len(out) < k {
-		i := r.Intn(len(xs))
-		if !idx[i] {
-			idx[i] = true
-			out = append(out, xs[i])
-		}
-	}
-	return out
 }
